@@ -88,8 +88,26 @@ class _Return(Exception):
 
 
 class _Raise(Exception):
-    def __init__(self, name):
+    def __init__(self, name, args=None):
         self.name = name
+        self.args_av = args or []
+
+
+EXC_PARENT = {"KeyError": "LookupError", "IndexError": "LookupError", "LookupError": "Exception",
+              "TypeError": "Exception", "ValueError": "Exception", "AttributeError": "Exception",
+              "AppError": "ProtocolError", "TransportError": "ProtocolError", "ProtocolError": "Exception",
+              "NotImplementedError": "RuntimeError", "RuntimeError": "Exception", "Exception": "BaseException"}
+
+
+def exc_matches(name, handler_types):
+    if handler_types is None:
+        return True
+    n = name.split(".")[-1]
+    while n is not None:
+        if n in handler_types:
+            return True
+        n = EXC_PARENT.get(n)
+    return False
 
 
 class _NeedDecision(Exception):
@@ -130,7 +148,7 @@ class Evaluator(object):
                 out = self._call(fi, dict(args), so)
                 results.append((list(self.trace), ("return", out)))
             except _Raise as r:
-                results.append((list(self.trace), ("raise", r.name)))
+                results.append((list(self.trace), ("raise", r.name, r.args_av)))
             # alternatives for the decisions made beyond the prefix
             for i in range(len(prefix), len(self.trace)):
                 alt = [d for (_l, d) in self.trace[:i]] + [not self.trace[i][1]]
@@ -225,7 +243,10 @@ class Evaluator(object):
             exc = st.exc
             if isinstance(exc, ast.Call):
                 exc = exc.func
-            raise _Raise(dump(exc) if exc is not None else "<reraise>")
+            av = []
+            if isinstance(st.exc, ast.Call):
+                av = [self.expr(a, env, fi) for a in st.exc.args]
+            raise _Raise(dump(exc) if exc is not None else "<reraise>", av)
         if isinstance(st, ast.Delete):
             for t in st.targets:
                 if isinstance(t, ast.Subscript):
@@ -239,6 +260,28 @@ class Evaluator(object):
                 raise AnalysisError("del target not modelled: %s" % dump(t))
             return
         if isinstance(st, ast.Pass):
+            return
+        if isinstance(st, ast.Try):
+            try:
+                try:
+                    self.block(st.body, env, fi)
+                except _Raise as r:
+                    for h in st.handlers:
+                        types = None
+                        if h.type is not None:
+                            types = [dump(t).split(".")[-1] for t in (h.type.elts if isinstance(h.type, ast.Tuple) else [h.type])]
+                        if exc_matches(r.name, types):
+                            if h.name:
+                                env[h.name] = Opaque("exception:" + r.name)
+                            self.block(h.body, env, fi)
+                            break
+                    else:
+                        raise
+                else:
+                    self.block(st.orelse, env, fi)
+            finally:
+                if st.finalbody:
+                    self.block(st.finalbody, env, fi)
             return
         if isinstance(st, ast.AugAssign) and self.lenient:
             self.expr(st.value, env, fi)
@@ -330,6 +373,22 @@ class Evaluator(object):
                 if k.v not in d.items:
                     raise _Raise("KeyError")
                 return d.items[k.v]
+            if isinstance(d, Sym) and getattr(d, "keys", None) is not None and isinstance(k, K):
+                if k.v not in d.keys:
+                    raise _Raise("KeyError")
+                return d.keys[k.v]
+            if isinstance(d, L) and isinstance(k, K) and isinstance(k.v, int):
+                try:
+                    return d.elts[k.v]
+                except IndexError:
+                    raise _Raise("IndexError")
+            if isinstance(d, K) and isinstance(k, K):
+                try:
+                    return K(d.v[k.v])
+                except (TypeError, IndexError, KeyError) as ex:
+                    raise _Raise(type(ex).__name__)
+            if isinstance(d, D) and isinstance(k, (D, L)):
+                raise _Raise("TypeError")
             raise AnalysisError("subscript not modelled: %s" % dump(e))
         if isinstance(e, ast.BoolOp):
             last = None
@@ -385,6 +444,10 @@ class Evaluator(object):
 
     def compare(self, op, a, b, e):
         if isinstance(op, (ast.In, ast.NotIn)):
+            if isinstance(b, L):
+                ok, av = self.conc(a)
+                r = any(isinstance(x, K) and ok and x.v == av and type(x.v) is type(av) for x in b.elts) or any(x is a for x in b.elts)
+                return r if isinstance(op, ast.In) else not r
             if isinstance(b, D):
                 ok, av = self.conc(a)
                 if not ok:
@@ -441,6 +504,9 @@ class Evaluator(object):
                     return av >= bv
             except TypeError:
                 raise _Raise("TypeError")
+        if isinstance(a, (D, L)) or isinstance(b, (D, L)):
+            if not (isinstance(a, L) and isinstance(b, L)):
+                raise _Raise("TypeError")       # ordering a container against a scalar
         raise AnalysisError("comparison of symbols not modelled: %s" % dump(e))
 
     def call(self, e, env, fi):
@@ -465,6 +531,19 @@ class Evaluator(object):
             if isinstance(args[0], K) and args[0].v is None:
                 return K("type:NoneType")
             return Sym("type(%s)" % getattr(args[0], "label", "v"), truthy=True)
+        if fname == "list" and len(args) == 1 and isinstance(args[0], L):
+            return L(list(args[0].elts))
+        if fname == "len" and len(args) == 1 and isinstance(args[0], (D, L)):
+            return K(len(args[0].items) if isinstance(args[0], D) else len(args[0].elts))
+        if fname == "len" and len(args) == 1 and isinstance(args[0], K):
+            try:
+                return K(len(args[0].v))
+            except TypeError:
+                raise _Raise("TypeError")
+        if isinstance(f, ast.Attribute) and f.attr in ("values", "keys") and not args:
+            base = self.expr(f.value, env, fi)
+            if isinstance(base, D):
+                return L([K(k) for k in base.items] if f.attr == "keys" else list(base.items.values()))
         if fname == "tuple" and len(args) == 1 and isinstance(args[0], L) and all(isinstance(x, K) for x in args[0].elts):
             return K(tuple(x.v for x in args[0].elts))
         if isinstance(f, ast.Attribute) and f.attr == "append" and len(args) == 1:
@@ -527,6 +606,8 @@ class Evaluator(object):
                 return base.keys[args[0].v]
             if isinstance(base, Opaque):
                 return Opaque("%s.%s()" % (base.label, f.attr))
+            if isinstance(base, (K, L)) and f.attr in ("get", "keys", "values", "items"):
+                raise _Raise("AttributeError")
         # package-level functions and classes
         r = self.prog.resolve(fi.module, f)
         if r in self.prog.funcs:
